@@ -249,7 +249,8 @@ def add_strxor(reg):
     for n in (8, 16):
         cs[n] = Contract('Crypto.Util.strxor.strxor#%d' % n, params={'term1': 'bytes', 'term2': 'bytes'},
                          requires=['len(term1) == %d' % n], raises={'ValueError': ('iff', 'len(term2) != %d' % n)},
-                         returns='spec.aead1.bx(bytes(term1), bytes(term2), %d)' % n, modifies=[], options={'exact': True}, assumed=why)
+                         result='bytes', ensures={'value': 'result == spec.aead1.bx(bytes(term1), bytes(term2), %d)' % n, 'len': 'len(result) == %d' % n},
+                         modifies=[], assumed=why)
 
     def choose(E, st, env):
         if env.get('output') is not None:
